@@ -1316,7 +1316,18 @@ func (b *ASTBuilder) buildComprehension(tsNode *sitter.Node, node *Node) {
 			for j := 0; j < int(child.ChildCount()); j++ {
 				subChild := child.Child(j)
 				if subChild != nil && subChild.Type() != "if" {
-					currentComp.Test = b.buildNode(subChild)
+					cond := b.buildNode(subChild)
+					if currentComp.Test != nil && cond != nil {
+						// Several if clauses on one for clause filter like
+						// their conjunction: "if a if b" is "if a and b"
+						both := NewNode(NodeBoolOp)
+						both.Location = currentComp.Test.Location
+						both.Op = "and"
+						both.AddChild(currentComp.Test)
+						both.AddChild(cond)
+						cond = both
+					}
+					currentComp.Test = cond
 					break
 				}
 			}
